@@ -328,6 +328,38 @@ def run_stress(chk, build, specs, tag):
     return res
 
 
+def run_lines(chk, build, lines, tag):
+    """raw harness lines (corpus files / --replay): implementation + oracles only"""
+    if not lines:
+        return []
+    impl = run_harness(build, BIN, lines, timeout=600)
+    exprs, res = [], []
+    for line, out in zip(lines, impl):
+        r = {"line": line, "impl": out, "bad": None}
+        if any(t in out for t in BAD_TOKENS):
+            r["bad"] = next(t for t in BAD_TOKENS if t in out)
+            res.append(r)
+            continue
+        t = parse_term(out)
+        r["impl_t"] = t
+        log = show_term(t[1])
+        alive_idle = line.rstrip().endswith("run") and not any(isinstance(e, tuple) and e[0] == "EExit" for e in t[1])
+        r["alive_idle"] = alive_idle
+        compl = line.rstrip().endswith("run")
+        exprs.append(f"(check_C07 {coq_bool(compl)} {log}, check_C02 {coq_bool(alive_idle)} {log})")
+        res.append(r)
+    vals = coq_eval(tag + "l", IMPORTS, exprs, scope="nat_scope")
+    k = 0
+    for r in res:
+        if r["bad"]:
+            continue
+        t = parse_term(vals[k])
+        k += 1
+        r["c07"] = t[1] == "true"
+        r["c02"] = t[2] == "true"
+    return res
+
+
 def describe(r, extra=None):
     d = {"harness_line": r["line"], "impl": r["impl"]}
     if "model_t" in r:
